@@ -172,6 +172,10 @@ class IntegerEncoder(AbstractItemEncoder):
     supportCompactZero = False
 
     def encodeValue(self, value, asn1Spec, encodeFun, **options):
+        if asn1Spec is not None and isinstance(value, str):
+            # a named number: the type knows what it stands for
+            value = asn1Spec.clone(value)
+
         if value == 0:
             if LOG:
                 LOG('encoding %spayload for zero INTEGER' % (
